@@ -74,7 +74,9 @@ class Decline:
 '''
 REPR = {"int": "3", "negint": "-2", "zero": "0", "float": "2.5", "bool": "True", "str": "'ab'", "list": "[1, 2]",
         "tuple": "(1, 2)", "dict": "{'a': 1}", "set": "{1, 2}", "none": "None", "complex": "(1+2j)",
-        "sub": "Vec((10, 20))", "fwd": "Fwd()", "refl": "Refl()", "decline": "Decline()", "valobj": "Money(5)", "iterobj": "Bag()", "gen": "Once()", "inf": "float('inf')"}
+        "sub": "Vec((10, 20))", "fwd": "Fwd()", "refl": "Refl()", "decline": "Decline()", "valobj": "Money(5)", "iterobj": "Bag()", "gen": "Once()", "inf": "float('inf')",
+        # classes are values too: what evaluate('Money') hands back is used as the second argument of isinstance
+        "clsint": "int", "clsuser": "Money"}
 
 BIN = {"add": operator.add, "sub": operator.sub, "mul": operator.mul, "truediv": operator.truediv,
        "floordiv": operator.floordiv, "mod": operator.mod, "divmod": divmod, "pow": operator.pow,
@@ -84,7 +86,9 @@ BIN = {"add": operator.add, "sub": operator.sub, "mul": operator.mul, "truediv":
        "contains": lambda a, b: b in a,            # membership in the (proxied) container a
        "getitem": lambda a, b: a[b], "isinstance": lambda a, b: isinstance(a, type(b)),
        "format": lambda a, b: format(a, "" if not isinstance(b, str) else ">5"),
-       "round2": lambda a, b: round(a, b)}
+       "round2": lambda a, b: round(a, b),
+       # the (proxied) class a as the classinfo argument
+       "instanceof": lambda a, b: isinstance(b, a), "subclassof": lambda a, b: issubclass(type(b), a)}
 UN = {"neg": operator.neg, "pos": operator.pos, "abs": abs, "invert": operator.invert, "len": len,
       "iter": lambda a: list(iter(a)), "hash": hash, "bool": bool, "str": str, "repr": repr, "int": int,
       "float": float, "complex": complex, "round": round, "trunc": math.trunc, "floor": math.floor,
@@ -93,7 +97,7 @@ UN = {"neg": operator.neg, "pos": operator.pos, "abs": abs, "invert": operator.i
       "next": lambda a: next(a), "forloop": lambda a: [x for x in a], "unpack": lambda a: [*a]}
 # placements that make sense: for these binary entries only the first operand can be the proxy
 ONE_SHOT = {"gen"}
-LEFT_ONLY = {"contains", "getitem", "isinstance", "format", "round2"}
+LEFT_ONLY = {"contains", "getitem", "isinstance", "format", "round2", "instanceof", "subclassof"}
 
 
 class World:
